@@ -178,9 +178,12 @@ Definition parse_qsl (qs : ustr) : list (ustr * ustr) :=
 Definition environ_key (k : ustr) : ustr :=
   str "HTTP_" ++ map (fun c => upper1a (if N.eqb c 45 then 95 else c)) k.
 Record environ := { e_method : ustr; e_path_info : ustr; e_query_string : ustr;
-                    e_content_length : option ustr; e_http : list (ustr * ustr) }.
+                    e_content_type : ustr;
+                    e_content_length : option ustr; e_http : list (ustr * ustr);
+                    e_input : bytes }.
 Definition build_environ (p : parsed) : environ :=
   {| e_method := p_method p; e_path_info := quote_path (p_path p); e_query_string := p_query p;
+     e_content_type := hget_str (p_headers p) "content-type"; e_input := p_body p;
      e_content_length := match p_length p with Some n => Some (dec_str n) | None => None end;
      e_http := map (fun kv => (environ_key (fst kv), snd kv)) (p_headers p) |}.
 
@@ -278,6 +281,11 @@ Definition build_modelled (r : request) : bool :=
      | _ => true
      end.
 
+(* the WSGI server on one keep-alive connection: the environ handed to the application for the
+   k-th request is build_environ of the k-th parsed request - a function of that request only *)
+Definition serve_many (o : url_oracle) (n : nat) (b : bytes) : list (res environ) :=
+  map (fun x => match x with Ok p => Ok (build_environ p) | Exc k => Exc k end) (parse_many o n b).
+
 (* ---------- the Requester as a stateful object ----------
    Requester keeps its attributes between builds; rebuild(args) = reinit(args); build().
    reinit replaces method / path / qargs / headers only when given, and ALWAYS replaces
@@ -347,7 +355,9 @@ Record case := { y_req : request; y_ops : list rargs; y_host : ustr; y_port : N;
                  y_steps : list stepobs;                     (* one per build, in order *)
                  (* all built requests (after an optional foreign first request) through ONE Requestant *)
                  y_stream_in : bytes; y_stream_n : nat;
-                 y_stream : list (option (ustr * ustr * ustr * list (ustr * ustr) * bytes)) }.
+                 y_stream : list (option (ustr * ustr * ustr * list (ustr * ustr) * bytes));
+                 (* the environ snapshots of the WSGI application behind a real Server on one connection *)
+                 y_wsgi : list (ustr * ustr * ustr * ustr * option ustr * list (ustr * ustr) * bytes) }.
 
 Definition check_step (o : url_oracle) (rw : request * bytes) (c : stepobs) : bool :=
   let '(req, mwire) := rw in
@@ -393,7 +403,18 @@ Definition check_case (c : case) : bool :=
                   | Exc _, None => true
                   | _, _ => false
                   end)
-               (parse_many o (y_stream_n c) (y_stream_in c)) (y_stream c).
+               (parse_many o (y_stream_n c) (y_stream_in c)) (y_stream c)
+  && list_eqb2 (fun (e : environ) ob =>
+                  let '(me, pi, qs, ct, cl, http, body) := ob in
+                  ustr_eqb (e_method e) me && ustr_eqb (e_path_info e) pi && ustr_eqb (e_query_string e) qs
+                  && ustr_eqb (e_content_type e) ct && option_eqb ustr_eqb (e_content_length e) cl
+                  && pairs_eqb (e_http e) http && bytes_eqb (e_input e) body)
+               (* the connection may be closed early (non persistent or malformed request): the
+                  snapshots taken must be the model's first ones *)
+               (firstn (List.length (y_wsgi c))
+                       (flat_map (fun x => match x with Ok e => [e] | Exc _ => [] end)
+                                 (serve_many o (y_stream_n c) (y_stream_in c))))
+               (y_wsgi c).
 
 Definition case_branches (c : case) : list nat :=
   let r := y_req c in
